@@ -218,69 +218,84 @@ theorem C12_thread_offcpu (s : Conv.St) (hi : 0 < s.cfg.interval) (hoc : s.cfg.o
 /-! ### Converter level: `Conv.run cfg rs`
 
 The thread-level theorems above are about `threadRun` — the thread-level functions iterated over the records of
-one thread. `Conv.thread_of_run` (`Lemmas/ConvCsRun.lean`, built on the observation lemmas of `Lemmas/ConvObs.lean`)
-is the binding invariant that lifts them to whole conversions: along `Conv.run cfg rs` the thread object bound to
-(pid, tid) is carried unchanged between the records of that thread — `lastTs`, `context_switch_data` and
-`off_cpu_stack` are rewritten only by `commitThread` with the result of the thread-level function on exactly that
-object (on-demand creation, renames, FORKs, MMAP2 records and the records of every other thread leave the triple
-alone) — and the samples emitted for it are appended to the buffer of its process, tagged with its tid.
+one thread incarnation. `Conv.thread_of_run` (`Lemmas/ConvCsRun.lean`, built on the observation lemmas of
+`Lemmas/ConvObs.lean`) is the binding invariant that lifts them to whole conversions: along `Conv.run cfg rs` the
+thread object bound to (pid, tid) is carried unchanged between the records of an incarnation — `lastTs`,
+`context_switch_data` and `off_cpu_stack` are rewritten only by `commitThread` with the result of the thread-level
+function on exactly that object (on-demand creation, renames, FORKs, MMAP2 records, `--reuse-threads` recycling and
+the records of every other thread leave the triple alone), are reset to `Thread::new` defaults by the EXIT / EXEC
+that ends the incarnation (its own, or its process's main thread's) — and the samples emitted for it are appended to
+the buffer of its process, tagged with its tid.
 
-Quantifier: every configuration (with `--reuse-threads` the recycled handles and names do not touch the triple)
-and histories without EXIT / EXEC records (`CsSpec.hasCut rs = false`) — the histories on which `judgeCs` evaluates
-(for default options) its per-thread clauses (2) Σ cpu deltas = running time
-and (3) Σ off-CPU weights + dropped = accounted units. (With EXIT / EXEC the triple is reset at the cut — also part
-of the observation lemmas, `obs_exit` / `obs_comm` — but a non-main thread's earlier incarnation leaves its samples
-in the same buffer under the same tid; the per-incarnation form of the statement is not proved.) -/
+Quantifier: every configuration and **every record history**. `curRecs cfg pid tid rs` are the records that reach
+the thread object of (pid, tid) since the last EXIT / EXEC that ended an incarnation of it (`trecs` = all of them
+when the history has no EXIT / EXEC: `C12_conv_no_cut`); the samples of the current incarnation are the *last*
+samples buffered for (pid, tid) — an earlier incarnation of a non-main thread leaves its samples in front of them in
+the same buffer, a main thread's EXIT / EXEC parks the whole buffer. Since the statement holds after every prefix of
+a history, it covers every incarnation at the moment it ends. -/
 
-/-- the samples `Conv.run cfg rs` holds for thread (pid, tid), the thread's context-switch data, and the thread run
-over the thread's own records -/
-theorem C12_conv_binding (cfg : Config) (rs : List Conv.Rec)
-    (hcut : ConvSpec.CsSpec.hasCut rs = false) (pid tid : Nat) :
-    (threadBuf (Conv.run cfg rs) pid tid).map esamp =
-      (threadRun (Conv.St.init cfg) pid tid 0 (trecs cfg pid tid rs)).out.map esamp ∧
-    threadCs (Conv.run cfg rs) pid tid = (threadRun (Conv.St.init cfg) pid tid 0 (trecs cfg pid tid rs)).th.cs ∧
-    ((Conv.run cfg rs).bad = false → (threadRun (Conv.St.init cfg) pid tid 0 (trecs cfg pid tid rs)).safe = true) := by
-  have h := thread_of_run cfg rs hcut pid tid
-  refine ⟨h.buf, ?_, h.safe⟩
-  unfold threadCs
-  rw [h.tq]; rfl
+/-- the samples `Conv.run cfg rs` holds for the current incarnation of thread (pid, tid), the thread's
+context-switch data, and the thread run over the incarnation's own records -/
+theorem C12_conv_binding (cfg : Config) (rs : List Conv.Rec) (pid tid : Nat) :
+    (∃ old cur, threadBuf (Conv.run cfg rs) pid tid = old ++ cur ∧
+      cur.map esamp = (threadRun (Conv.St.init cfg) pid tid 0 (curRecs cfg pid tid rs)).out.map esamp) ∧
+    threadCs (Conv.run cfg rs) pid tid = (threadRun (Conv.St.init cfg) pid tid 0 (curRecs cfg pid tid rs)).th.cs ∧
+    ((Conv.run cfg rs).bad = false →
+      (threadRun (Conv.St.init cfg) pid tid 0 (curRecs cfg pid tid rs)).safe = true) := by
+  have h := thread_of_run cfg rs pid tid
+  refine ⟨?_, ?_, h.safe⟩
+  · obtain ⟨olde, hold⟩ := h.buf
+    obtain ⟨lo, lc, e1, e2⟩ := split_of_map_suffix esamp _ _ _ hold
+    exact ⟨lo, lc, e1, e2⟩
+  · unfold threadCs
+    rw [h.tq]; rfl
 
-/-- **CPU time, converter level.** For every configuration with an off-CPU indicator and an interval > 0, every record history without EXIT / EXEC, and every thread (pid, tid) whose own records are
-time-ordered: the cpu deltas of the samples `Conv.run cfg rs` buffered for the thread (on-CPU samples and first
-samples of off-CPU groups; rest samples carry 0) plus what is still pending in the thread's accumulator equal the
-running time of the thread's bare history. -/
-theorem C12_conv_cpu (cfg : Config) (rs : List Conv.Rec)
-    (hcut : ConvSpec.CsSpec.hasCut rs = false) (hi : 0 < cfg.interval) (hoc : cfg.offCpu.isSome = true)
-    (pid tid : Nat) (ho : TOrdered cfg (none, H.init) (trecs cfg pid tid rs)) :
-    cpuSum (threadBuf (Conv.run cfg rs) pid tid) + (threadCs (Conv.run cfg rs) pid tid).onAcc
-      = (spec (timed cfg (trecs cfg pid tid rs))).running := by
-  obtain ⟨b1, b2, _⟩ := C12_conv_binding cfg rs hcut pid tid
-  have h := (C12_thread_cpu (Conv.St.init cfg) hi hoc pid tid 0 (trecs cfg pid tid rs) ho).1
+/-- without EXIT / EXEC records the current incarnation is the thread's whole history -/
+theorem C12_conv_no_cut (cfg : Config) (rs : List Conv.Rec) (hcut : ConvSpec.CsSpec.hasCut rs = false)
+    (pid tid : Nat) : curRecs cfg pid tid rs = trecs cfg pid tid rs :=
+  curRecs_nocut cfg pid tid rs hcut
+
+/-- **CPU time, converter level.** For every configuration with an off-CPU indicator and an interval > 0, every
+record history, and every thread (pid, tid) whose current incarnation's records are time-ordered: the cpu deltas of
+the samples `Conv.run cfg rs` buffered for that incarnation (`cur`: the last samples buffered for the thread —
+on-CPU samples and first samples of off-CPU groups; rest samples carry 0) plus what is still pending in the
+thread's accumulator equal the running time of the incarnation's bare history. -/
+theorem C12_conv_cpu (cfg : Config) (rs : List Conv.Rec) (hi : 0 < cfg.interval) (hoc : cfg.offCpu.isSome = true)
+    (pid tid : Nat) (ho : TOrdered cfg (none, H.init) (curRecs cfg pid tid rs)) :
+    ∃ old cur, threadBuf (Conv.run cfg rs) pid tid = old ++ cur ∧
+      cpuSum cur + (threadCs (Conv.run cfg rs) pid tid).onAcc
+        = (spec (timed cfg (curRecs cfg pid tid rs))).running := by
+  obtain ⟨⟨old, cur, e1, b1⟩, b2, _⟩ := C12_conv_binding cfg rs pid tid
+  have h := (C12_thread_cpu (Conv.St.init cfg) hi hoc pid tid 0 (curRecs cfg pid tid rs) ho).1
+  refine ⟨old, cur, e1, ?_⟩
   rw [cpuSum_esamp b1, b2]
   exact h
 
 /-- **Off-CPU time, converter level**, with the dropped-group caveat as a proven characterisation (`units` /
-`dropped` / `sat` are the ghost counters of the thread run over the thread's own records: a group's units go to
+`dropped` / `sat` are the ghost counters of the thread run over the incarnation's records: a group's units go to
 `dropped` exactly when no off-CPU stack was stored at the wake-up, `sat` is set exactly when a group stood for more
 than 2^31 samples): accounted units, the carried remainder (< interval) and the still open sleep add up to the
-sleeping time of the thread's bare history, and unless `sat` the weights of the off-CPU samples buffered for the
-thread by `Conv.run cfg rs` add up to `units · off_cpu_weight_per_sample`. -/
-theorem C12_conv_offcpu (cfg : Config) (rs : List Conv.Rec)
-    (hcut : ConvSpec.CsSpec.hasCut rs = false) (hi : 0 < cfg.interval) (hoc : cfg.offCpu.isSome = true)
-    (pid tid : Nat) (ho : TOrdered cfg (none, H.init) (trecs cfg pid tid rs)) :
-    let r := threadRun (Conv.St.init cfg) pid tid 0 (trecs cfg pid tid rs)
+sleeping time of the incarnation's bare history, and unless `sat` the weights of the off-CPU samples buffered for
+the incarnation by `Conv.run cfg rs` add up to `units · off_cpu_weight_per_sample`. -/
+theorem C12_conv_offcpu (cfg : Config) (rs : List Conv.Rec) (hi : 0 < cfg.interval)
+    (hoc : cfg.offCpu.isSome = true) (pid tid : Nat)
+    (ho : TOrdered cfg (none, H.init) (curRecs cfg pid tid rs)) :
+    let r := threadRun (Conv.St.init cfg) pid tid 0 (curRecs cfg pid tid rs)
     (threadCs (Conv.run cfg rs) pid tid).offAcc < cfg.interval ∧
     (r.units + r.dropped) * cfg.interval + (threadCs (Conv.run cfg rs) pid tid).offAcc
-      + (match (spec (timed cfg (trecs cfg pid tid rs))).last, (spec (timed cfg (trecs cfg pid tid rs))).sleepStart with
+      + (match (spec (timed cfg (curRecs cfg pid tid rs))).last, (spec (timed cfg (curRecs cfg pid tid rs))).sleepStart with
          | some (now, false), some s0 => now - s0
          | _, _ => 0)
-      = (spec (timed cfg (trecs cfg pid tid rs))).sleeping ∧
-    (r.sat = false → offWeight (threadBuf (Conv.run cfg rs) pid tid) = r.units * cfg.offWeight) := by
+      = (spec (timed cfg (curRecs cfg pid tid rs))).sleeping ∧
+    (r.sat = false → ∃ old cur, threadBuf (Conv.run cfg rs) pid tid = old ++ cur ∧
+      offWeight cur = r.units * cfg.offWeight) := by
   intro r
-  obtain ⟨b1, b2, _⟩ := C12_conv_binding cfg rs hcut pid tid
-  have h := C12_thread_offcpu (Conv.St.init cfg) hi hoc pid tid 0 (trecs cfg pid tid rs) ho
-  rw [offWeight_esamp b1, b2]
-  exact h
+  obtain ⟨⟨old, cur, e1, b1⟩, b2, _⟩ := C12_conv_binding cfg rs pid tid
+  obtain ⟨h1, h2, h3⟩ := C12_thread_offcpu (Conv.St.init cfg) hi hoc pid tid 0 (curRecs cfg pid tid rs) ho
+  rw [b2]
+  refine ⟨h1, h2, fun hs => ⟨old, cur, e1, ?_⟩⟩
+  rw [offWeight_esamp b1]
+  exact h3 hs
 
 /-! ### Non-vacuity: the history of the repo's own unit test satisfies the hypotheses, and the
 conclusions are the numbers that test asserts. -/
@@ -321,7 +336,12 @@ def C12_runHistory : List Conv.Rec :=
 def C12_runCfg : Conv.Config := { offCpu := some .contextSwitches, interval := 10 }
 
 example : ConvSpec.CsSpec.hasCut C12_runHistory = false ∧
-    TOrdered C12_runCfg (none, H.init) (trecs C12_runCfg 1 2 C12_runHistory) := by decide
+    TOrdered C12_runCfg (none, H.init) (curRecs C12_runCfg 1 2 C12_runHistory) := by decide
+/-- with an EXIT of the thread in between, the current incarnation starts after it (and its hypothesis holds) -/
+example : curRecs C12_runCfg 1 2 (C12_runHistory ++ [.exit 1 2 20, .switchIn 1 2 30, .sample 1 2 35 false 0 0 []]) =
+      [.switchIn 30, .sample 35 0 [Conv.SFrame.ip 0 false]] ∧
+    (threadBuf (Conv.run C12_runCfg (C12_runHistory ++ [.exit 1 2 20, .switchIn 1 2 30, .sample 1 2 35 false 0 0 []])) 1 2).map
+      (fun u => (u.t, u.cpu)) = [(12, 10), (35, 5)] := by decide
 example : (threadBuf (Conv.run C12_runCfg C12_runHistory) 1 2).map (fun u => (u.t, u.cpu, u.synth)) = [(12, 10, false)] ∧
     (threadCs (Conv.run C12_runCfg C12_runHistory) 1 2).onAcc = 1 ∧
     (spec (timed C12_runCfg (trecs C12_runCfg 1 2 C12_runHistory))).running = 11 := by decide
